@@ -368,7 +368,10 @@ class PDFStream(PDFObject):
                         data = b""
 
             elif f in LITERALS_LZW_DECODE:
-                data = lzwdecode(data)
+                early_change = 1
+                if isinstance(params, dict) and "EarlyChange" in params:
+                    early_change = int_value(params["EarlyChange"])
+                data = lzwdecode(data, early_change)
             elif f in LITERALS_ASCII85_DECODE:
                 data = ascii85decode(data)
             elif f in LITERALS_ASCIIHEX_DECODE:
